@@ -304,6 +304,13 @@ impl<T: Clone> SentRotateGuard<'_, T> {
     ///
     /// [`Largest Acknowleged`]: https://www.rfc-editor.org/rfc/rfc9000.html#name-ack-frames
     pub fn update_largest(&mut self, ack_frame: &AckFrame) -> Result<(), QuicError> {
+        if ack_frame.has_negative_pn() {
+            return Err(QuicError::new(
+                ErrorKind::FrameEncoding,
+                ack_frame.frame_type().into(),
+                "ack frame ranges compute a negative packet number",
+            ));
+        }
         // `sent_packets.largest()` is the number the *next* packet will carry, it has not been sent yet
         if ack_frame.largest() >= self.inner.sent_packets.largest() {
             return Err(QuicError::new(
